@@ -87,6 +87,16 @@ func scanUnpushed(cb GitScannerFoundPointer, remote string) error {
 	if _, err := git.ResolveRef("HEAD"); err == nil {
 		logArgs = append(logArgs, "HEAD")
 	}
+	// nor are those made on the detached HEAD of another worktree
+	if gitDir, err := git.GitCommonDir(); err == nil {
+		if worktrees, err := git.GetAllWorktrees(gitDir); err == nil {
+			for _, worktree := range worktrees {
+				if !worktree.Prunable && len(worktree.Ref.Sha) > 0 {
+					logArgs = append(logArgs, worktree.Ref.Sha)
+				}
+			}
+		}
+	}
 	logArgs = append(logArgs,
 		"--branches", "--tags", // include all locally referenced commits
 		// what the resolution of a merge introduces only shows up in
